@@ -76,12 +76,16 @@ pub enum BodySel {
     File0,
     File10,
     File70k,
+    /// the handle's cursor is not at the start (partly read before the upload)
+    File10Seeked,
+    /// the handle's cursor is at the end (just read to the end)
+    File10AtEnd,
     Json,
     JsonStreaming,
     Form,
     Multipart,
 }
-const BODIES: [BodySel; 11] = [
+const BODIES: [BodySel; 13] = [
     BodySel::None,
     BodySel::TextEmpty,
     BodySel::Text,
@@ -89,6 +93,8 @@ const BODIES: [BodySel; 11] = [
     BodySel::File0,
     BodySel::File10,
     BodySel::File70k,
+    BodySel::File10Seeked,
+    BodySel::File10AtEnd,
     BodySel::Json,
     BodySel::JsonStreaming,
     BodySel::Form,
@@ -175,14 +181,25 @@ fn send_a(c: &CaseA) -> Result<(Vec<u8>, Option<Vec<u8>>), String> {
             expected_body = Some(b.clone());
             rb.bytes(b).send().map_err(fail)?;
         }
-        BodySel::File0 | BodySel::File10 | BodySel::File70k => {
+        BodySel::File0 | BodySel::File10 | BodySel::File70k | BodySel::File10Seeked | BodySel::File10AtEnd => {
             let n = match c.body {
                 BodySel::File0 => 0,
-                BodySel::File10 => 10,
-                _ => 70000,
+                BodySel::File70k => 70000,
+                _ => 10,
             };
             expected_body = Some(payload(n));
-            rb.file(scratch_file("c07", n)).send().map_err(fail)?;
+            let mut f = scratch_file("c07", n);
+            use std::io::Seek;
+            match c.body {
+                BodySel::File10Seeked => {
+                    f.seek(std::io::SeekFrom::Start(4)).unwrap();
+                }
+                BodySel::File10AtEnd => {
+                    f.seek(std::io::SeekFrom::End(0)).unwrap();
+                }
+                _ => {}
+            }
+            rb.file(f).send().map_err(fail)?;
         }
         BodySel::Json => {
             let v = json_value();
@@ -338,7 +355,7 @@ fn check_a(c: &CaseA) -> Vec<(String, String)> {
     if req.framing == ReqFraming::None && !req.body.is_empty() {
         v.push(("framing-none".into(), "non-empty body without framing".into()));
     }
-    if matches!(c.body, BodySel::Text | BodySel::BytesAll | BodySel::File10 | BodySel::File70k | BodySel::Json | BodySel::JsonStreaming | BodySel::Form | BodySel::Multipart)
+    if matches!(c.body, BodySel::Text | BodySel::BytesAll | BodySel::File10 | BodySel::File70k | BodySel::File10Seeked | BodySel::File10AtEnd | BodySel::Json | BodySel::JsonStreaming | BodySel::Form | BodySel::Multipart)
         && req.framing == ReqFraming::None
     {
         v.push(("framing-none".into(), format!("{:?} body sent without Content-Length or chunked framing", c.body)));
